@@ -84,6 +84,10 @@ class C38(core.Prop):
                 cls.append("uniform-strategy")
             if red in ("sdpor", "odpor") and any(op[0] == "cv_wait_for" for a in sc["actors"] for op in a["ops"]):
                 cls.append("timed-condvar")
+            if red == "dpor" and any(a["ops"][i][0] == "lock" and b["ops"][j][0] == "try_lock" and a["ops"][i][1] == b["ops"][j][1]
+                                     for a in sc["actors"] for b in sc["actors"] if a is not b
+                                     for i in range(len(a["ops"])) for j in range(len(b["ops"]))):
+                cls.append("lock-vs-trylock")          # a blocking lock and a try_lock of one mutex by two actors
             cls = ":" + ("+".join(cls) or "plain") if red != "none" else ""
             if res.crashed and "Assertion lock_handle > 0 failed" in res.r.err:
                 oc.bad("%sabort:lock_handle-assertion:%s" % (befs, red), "simgrid-mc reduction %s (%s) aborts: 'Assertion lock_handle > 0 "
